@@ -68,7 +68,13 @@ SeqVerdict(o) ==
            [] c = "parity_is_xor_of_message" -> n > 1 /\ \E i \in 1..n : hasSA(i) /\ segs(i)[1].parity # want
            [] c = "no_stray_header" -> \E i \in 1..n : \E k \in 2..Len(segs(i)) : segs(i)[k].kind = "sa"
            [] c = "reassembly" -> payload # o.message}
-  IN [tid |-> o.tid, fails |-> {<<"C08", c>> : c \in fails},
+      \* C07 on sequences: without a requested mode every symbol carries the first applicable mode of the whole message
+      modefails == {c \in {"sequence_mode_first_applicable", "sequence_mode_reported"} :
+                      CASE c = "sequence_mode_first_applicable" ->
+                             o.args.mode = "none" /\ \E i \in 1..n : \E k \in 1..Len(segs(i)) : segs(i)[k].kind = "data" /\ segs(i)[k].mode # MsgMode(o)
+                        [] c = "sequence_mode_reported" ->
+                             \E i \in 1..n : LET ds == DataSegs(segs(i)) IN Len(ds) = 1 /\ syms[i].mode # ds[1].mode}
+  IN [tid |-> o.tid, fails |-> {<<"C08", c>> : c \in fails} \cup {<<"C07", c>> : c \in modefails},
       devs |-> {x \in {"Dev_SeqEstimateOnly"} : fails # {} /\ fails \subseteq {"data_fits_capacity", "reassembly"} /\ DevSeqEstimateOnly(o, decs)},
       facts |-> [n |-> n, versions |-> [i \in 1..n |-> decs[i].v], levels |-> [i \in 1..n |-> decs[i].fmt.level],
                  modes |-> [i \in 1..n |-> [k \in 1..Len(segs(i)) |-> IF segs(i)[k].kind = "data" THEN segs(i)[k].mode ELSE segs(i)[k].kind]],
